@@ -54,6 +54,10 @@ CHECKS.update({
  "C17": dict(cat="model_checking", text="Symmetry.tla holds the table test x transformation -> relation and TLC checks every entry against the Def operators on all sequences of 8..10 (12) bits (every rotation amount, block rotation, complemented tail). Against the code, pairs (x, tau x) for every claimed entry x documented parameters: every rotation amount at n=100/128/131, sampled rotations, random block permutations and tail contents up to 10^6 bits; TLC judges the relation (same / Q -> 1-Q / ones<->zeros / forward<->backward) at 1e-9.", ref="4 C17", note="1e-9 covers float summation-order differences (1.5e-10 observed for ApEn at 10^6 bits)", tech="TLA+ relation table (SymmetryTable/Symmetry) model-checked against the definitions by TLC; transformed inputs replayed into Go; recorded pairs validated by TLC (TraceSymmetry)"),
  "C18": dict(cat="model_checking", text="Purity.tla models invocations as processes with read/write footprints (input, tables, private scratch) and TLC checks non-interference over all interleavings of 2-3 invocations, with shared scratch and input-writing as negative controls. TLC-generated plans (2..64 goroutines x any mix of the 15 runners and the two rounds, shared/private inputs, start barrier) are run free: results bit-identical to solitary results, inputs hashed, table probe; repeated in a -race build. Per-call input purity and determinism are also checked in every C01-C05/C15 replay.", ref="4 C18", note="footprints are bound observationally (snapshots, bit identity, race detector); schedules sampled", tech="TLA+ footprint model (Purity) model-checked by TLC; TLC-generated concurrency plans replayed into Go (plain and -race); outcomes validated by TLC (TracePurity)"),
 })
+CHECKS.update({
+ "C13": dict(cat="model_checking", text="Detector.tla models the rddetector pipeline (walker, n workers, spawned senders, single writer, WaitGroup) and TLC checks termination and exactly-one-row-per-file over all interleavings for <=4 (5) files and <=3 workers (miscounted wg.Add as negative control). The real binary is run on generated directories (scale x file count x -n 1..64 x nested/.dat/extra files x GOMAXPROCS x report path); TLC validates each run: header structure (P/Q pairs naming the same test and parameter, every test of the scale), one row per sample file, column count, and every value against the library value the header names to 6 decimals; the 10^8-bit worker is driven directly on smaller files.", ref="4 C13", note="interleavings inside the separate process are not controlled; 10^8 scale at worker-function level on 10^5 (10^6)-bit files", tech="TLA+ pipeline model (Detector) model-checked by TLC incl. liveness; report schema (Columns); runs of the real binary validated by TLC (TraceDetector)"),
+ "C20": dict(cat="model_checking", text="Gen.tla models main and the writer goroutines over a file-system map and TLC checks termination, files exactly random0..random(s-1).bin complete in the requested directory and nothing elsewhere (ignoring -o as negative control). The real rdgen binary runs in scratch directories for s x n x output path (default, relative, nested, absolute, pre-existing with stale files) x taskset/GOMAXPROCS with tree snapshots; TLC validates names, count, sizes, distinct contents, location; generated directories are handed to the real rddetector.", ref="4 C20", note="writer interleavings inside the process are not controlled", tech="TLA+ model (Gen) model-checked by TLC incl. liveness; runs of the real binary validated by TLC (TraceGen)"),
+})
 PENDING = {}
 
 def main():
